@@ -144,6 +144,10 @@ pub struct JCase {
     pub bits_pat: Pattern,
     pub shape: Shape,
     pub mode: Mode,
+    /// the per-item closure itself runs a (read-only) parallel join now and then: re-entrancy of
+    /// the join machinery on the same worker
+    #[serde(default)]
+    pub nest: bool,
 }
 
 pub struct Contents {
@@ -684,6 +688,11 @@ macro_rules! run_for_kind {
                         let idx = e.id();
                         h.enter(idx);
                         let mut err = own(idx, Some(e), (*acc).peek());
+                        if c.nest && idx % 3 == 0 && idx < 200 && err.is_none() {
+                            // a nested parallel join from inside the closure
+                            let n = (&sd).par_join().count();
+                            err = chk("nested parallel join count", idx, n, kk.xd.len());
+                        }
                         h.mid();
                         acc.access_mut().write(newp(seed, idx));
                         h.leave(idx);
@@ -1156,6 +1165,7 @@ pub fn gen_case(profile: &str, seed: u64) -> JCase {
             consumer: *r.pick(&[Consumer::ForEach, Consumer::ForEach, Consumer::MapCollect, Consumer::FilterCount]),
         }
     };
+    let nest = matches!(mode, Mode::B { .. }) && shape == Shape::MutOnly && width <= 9000 && r.chance(1, 2);
     JCase {
         seed,
         width,
@@ -1169,6 +1179,7 @@ pub fn gen_case(profile: &str, seed: u64) -> JCase {
         bits_pat: gen_pattern(&mut r, false),
         shape,
         mode,
+        nest,
     }
 }
 
